@@ -53,4 +53,10 @@ theorem ClifFns_cfg : (∀ o : Fin 256, (cfgJumpOpcodesSrc.contains o.val) = isJ
     prepareJumpBlocksShape = true ∧ translateHeadShape = true ∧ translateTailShape = true := by
   decide +kernel
 
+/-- helper symbols: the name a helper's address is registered under and the name the compiled function imports are the same format string over the id (a call to helper `k`
+    reaches the function registered under `k`), and it prints the id with `{}` -/
+theorem ClifFns_helperSymbols : helperSymbolsSrcOk = true ∧ helperSymbolDefSrc = helperSymbolImportSrc ∧ helperSymbolDefSrc = "helper_{}".toList := by
+  refine ⟨by decide, by decide, ?_⟩
+  simp [helperSymbolDefSrc]
+
 end Rbpf
